@@ -2,6 +2,7 @@ package main
 
 import (
 	"bytes"
+	"strings"
 
 	"golang.org/x/net/http2"
 	"golang.org/x/net/http2/hpack"
@@ -31,6 +32,11 @@ func encodeHTTP2(v *wireVec) (*wireCase, error) {
 		enc.WriteField(hpack.HeaderField{Name: ":scheme", Value: "https"})
 		enc.WriteField(hpack.HeaderField{Name: ":path", Value: ms_(m, "path")})
 		enc.WriteField(hpack.HeaderField{Name: ":authority", Value: ms_(m, "host")})
+		if t := ms_(m, "tenant"); t != "" && t != "none" {
+			for _, v := range strings.Split(t, "_") {
+				enc.WriteField(hpack.HeaderField{Name: "x-tenant", Value: v})
+			}
+		}
 		fr.WriteHeaders(http2.HeadersFrameParam{StreamID: 1, BlockFragment: hb.Bytes(), EndHeaders: true, EndStream: true})
 		c.first = buf.Bytes()
 	}
@@ -45,6 +51,8 @@ func encodeHTTP2(v *wireVec) (*wireCase, error) {
 		c.cfg = []map[string]any{{"method": []string{"POST"}}}
 	case "header":
 		c.cfg = []map[string]any{{"header": map[string][]string{"X-Test": {"*"}}}}
+	case "tenant":
+		c.cfg = []map[string]any{{"header": map[string][]string{"X-Tenant": {"alpha"}}}}
 	}
 	return c, nil
 }
